@@ -69,6 +69,14 @@ CHECKS = {
          "Path::suffix on all ordered pairs PATH(3) x PATH(2) (quick) / PATH(4) x PATH(3) (thorough) over {'' . .. a b a:b %61 %FF}: Some exactly when same absoluteness and the prefix's normalised decoded segments lead the value's; the returned path renders the remaining segments; pushing them onto the prefix gives a path == the original. Ri/RiRef::suffix on all ordered pairs of ~700 references (equal/different scheme and authority incl. %-spellings): gate, own query/fragment, agreement of entry points. base() on every valid reference of RAW(6)/RAW(7) (1.1 M texts) and of the reference domain: text up to and including the last '/' of the path, valid, no query/fragment.",
          "Trusted: the decomposition, path-list and equivalence models.",
          "DESIGN.md section 6, C16"),
+ "C17": ("program enumeration: every program 'one macro invocation on one string literal' of a finite literal set compiled by the real rustc with the real proc-macro; acceptance set vs the run-time parser and the reference DFA; accepted constants compared with the run-time parse in an executed program",
+         "For the four macros, literals = transition cover (every state, every transition over the class alphabet) of the reference DFA of the macro's type continued by characterisation suffixes, plus literals that need escaping in Rust source ({ } # quote backslash, control characters, non-ASCII, bidi controls), each in up to three spellings (escaped, raw, raw with hashes): 55 k programs quick, ~200 k thorough. One `cargo check --message-format=json` of a file with one invocation per line gives the macro's acceptance set; it must equal the run-time parser's (and the reference grammar's); a second program holding every accepted invocation is built and RUN, comparing text, the five components and == of each constant with the run-time parse of the same string.",
+         "Trusted: rustc/cargo reporting each compile_error! at its invocation line; the literal set is complete for the transition structure, not for all strings (C01 ties the run-time parser to the RFC for all strings). Non-literal macro arguments are outside the quantifier.",
+         "DESIGN.md section 6, C17"),
+ "C18": ("exhaustive sweep of all short token sequences (as byte strings) through both data-URL constructors and all views, with an independent RFC 4648 decoder and a hang watchdog",
+         "All sequences of up to 5 (quick) / 6 (thorough) tokens over 19 tokens (data:, dat, :, ',', ;, base64, 'base64,', a, /, #, ?, %41, %, =, A, space, QQ==, +, raw non-ASCII bytes): 2.6 M byte strings quick; constructors and string routes agree; acceptance implies validity under the reference URI DFA and the data-URL shape; for every accepted value (15 k quick) borrowed, owned and owned-through-Deref views coincide, accessors equal parts(), the parts reassemble the text, decoded data equals the independent decoder's (or the raw data bytes when not base64); a watchdog reports a case that does not terminate within 3 s.",
+         "Trusted: the 40-line RFC 4648 decoder and the weak shape model; the reference URI DFA.",
+         "DESIGN.md section 6, C18"),
  "C19": ("exhaustive sweep over all short %XX token sequences (every class of the UTF-8 decoding automaton) in every percent-decodable component, against an octet-level decoding model",
          "All sequences of up to 3 (quick) / 4 (thorough) tokens over 21-22 tokens covering ASCII, literal non-ASCII, continuation bytes low/high, overlong leads C0/C1/E0, 2/3/4-byte leads, surrogate lead ED A0, beyond-range F4 90 / F5, FF, %2F, %25, for Segment, Host, UserInfo, Query, Fragment of both families, stand-alone and obtained from a parsed URI/IRI (209 k values quick): bytes() equals the model's octets, and chars/len/decode/== str/Deref/into_pct_string terminate and yield the UTF-8 text of well-formed octets and never equate ill-formed octets with well-formed text.",
          "Trusted: the octet decoder of model/equiv.rs. Two known findings rooted in the pct-str / utf8-decode dependencies are listed in known_findings.json with matchers pinned to the panic site pct-str-2.0.0/src/lib.rs:200 and to the (operation, ill-formed octets, wrong value) signature; any other violation still exits 1.",
